@@ -11,6 +11,7 @@ Smoke test of the driver (fault at `open` of RETR):
     obs, tree, log = run_impl(script_events("retr"), {4})
 """
 import asyncio
+import errno
 import shutil
 import tempfile
 import types
@@ -42,8 +43,12 @@ LEVEL_TEXT = (
     "C13_stream_first_obligation: both transfer workers enter the stream context before the file - false on the pre-fix order), "
     "C13_data_closed_stream_first (the same for every parameter set with that order). The restart offset is 0 after any known verb, "
     "failed transfers included (the dispatcher's hand-over rule). "
+    "C13_same_wakeup_contained (one wake-up of the dispatcher with ANY finished tasks in any order: each PathIOError task its own 451, "
+    "every command line dispatched and parse_command re-armed; obligation C13_round_obligation: each task.result() under its own try), "
+    "C13_batch_try_drops (what one try around all results would lose). "
     "Tied to the code by C13_source_obligations / C13_probe_obligations (vm_compute on facts regenerated from server.py / pathio.py) "
-    "and by scripts x every fault position (single, double; three exception classes; three backends) on the real server."
+    "and by scripts x every fault position (single, double; 27 exception classes incl. the TimeoutError family and a real path_timeout expiry; three "
+    "backends) and by the same-wake-up stream (two tasks of one session aligned in one dispatcher round) on the real server."
 )
 LEVEL_NOTE = (
     "Trusted: Coq kernel, py2v (gen_dispatch, gen_faultsites), extraction, simnet, the fault injector (rebuilds each backend method's "
@@ -52,7 +57,7 @@ LEVEL_NOTE = (
     "not use universal_exception."
 )
 TRUSTED = [
-    "fault injector: types.FunctionType re-closure of the shipped methods' decorator stacks around a leaf that raises OSError / ValueError / RuntimeError",
+    "fault injector: types.FunctionType re-closure of the shipped methods' decorator stacks around a leaf that raises (27 classes), outlasts path_timeout, or parks until released",
     "simnet: EOF / open-transport ledger stands for what a TCP peer would observe",
 ]
 ASSUMPTIONS = [
@@ -67,23 +72,86 @@ A, B = 0, 1
 DC = ftpsim.DATACONN
 
 # what the injected failure is: the property speaks of the backend FAILING, whatever it raises
-KINDS = {"os": OSError, "value": ValueError, "runtime": RuntimeError}
-KIND_NAMES = ("os", "value", "runtime")
+# (every Exception subclass except the documented pass-throughs of universal_exception: NotImplementedError "this
+# backend does not implement the operation", StopAsyncIteration the iteration protocol; CancelledError is not one).
+# The OSError family as the OS raises it: OSError(errno, ..) constructs the subclass (ETIMEDOUT -> TimeoutError, which
+# IS asyncio.TimeoutError since 3.11; ECONNRESET -> ConnectionResetError; EACCES -> PermissionError; ...).
+KINDS = {
+    "os": OSError,
+    "value": ValueError,
+    "runtime": RuntimeError,
+    "etimedout": lambda m: OSError(errno.ETIMEDOUT, m),
+    "aio-timeout": asyncio.TimeoutError,
+    "conn-reset": lambda m: OSError(errno.ECONNRESET, m),
+    "conn-aborted": lambda m: OSError(errno.ECONNABORTED, m),
+    "broken-pipe": lambda m: OSError(errno.EPIPE, m),
+    "perm": lambda m: OSError(errno.EACCES, m),
+    "notfound": lambda m: OSError(errno.ENOENT, m),
+    "exists": lambda m: OSError(errno.EEXIST, m),
+    "isdir": lambda m: OSError(errno.EISDIR, m),
+    "notdir": lambda m: OSError(errno.ENOTDIR, m),
+    "eintr": lambda m: OSError(errno.EINTR, m),
+    "eagain": lambda m: OSError(errno.EAGAIN, m),
+    "enospc": lambda m: OSError(errno.ENOSPC, m),
+    "eio": lambda m: OSError(errno.EIO, m),
+    "key": KeyError,
+    "eof": EOFError,
+    "assert": AssertionError,
+    "unicode": lambda m: UnicodeDecodeError("utf-8", b"\xff", 0, 1, m),
+    "memory": MemoryError,
+    "recursion": RecursionError,
+    "lookup": IndexError,
+    "type": TypeError,
+    "attr": AttributeError,
+    "incomplete-read": lambda m: asyncio.IncompleteReadError(b"", 1),
+    # not an exception thrown by the harness: the operation takes longer than path_timeout and the backend's own
+    # `with_timeout` (AsyncPathIO) expires
+    "slow": None,
+}
+KIND_NAMES = tuple(k for k in KINDS if k != "slow")
+PATH_TIMEOUT = 3
+
+
+def kind_class(kind):
+    if kind == "slow":
+        return "path_timeout-expiry"
+    return type(KINDS[kind]("x")).__name__
+
+
+class Ctl:
+    """per-run switches of the fault injector"""
+
+    def __init__(self, kind="os"):
+        self.kind = kind
+        self.gate_idx = {}  # backend call index -> asyncio.Event: the call parks there, then raises
+        self.gate_ops = {}  # operation name -> asyncio.Event: the NEXT call of that operation parks, then raises
+        self.parked = []
+        self.async_level = kind == "slow"  # inject above the executor hop (inside with_timeout / universal_exception)
 
 OPS = ("exists", "is_dir", "is_file", "mkdir", "rmdir", "unlink", "stat", "_open", "seek", "write", "read", "close", "rename")
 
 
 # ---------------------------------------------------------------- fault-injecting backend
-def rebuild(fn, leaf):
+def rebuild(fn, leaf, async_level=False):
     """a copy of the decorated function `fn` whose innermost (undecorated) function is leaf(innermost); the
-    decorator wrappers in between are the SAME code objects with a fresh closure"""
+    decorator wrappers in between are the SAME code objects with a fresh closure.  async_level: stop at the innermost
+    COROUTINE function (for AsyncPathIO: the `_blocking_io` wrapper that hops to the executor), so that the leaf can
+    await - still below `with_timeout` and `universal_exception`"""
     inner = getattr(fn, "__wrapped__", None)
     if inner is None or not getattr(fn, "__closure__", None):
         return leaf(fn)
+    if async_level:
+        chain, x = [], fn
+        while x is not None:
+            chain.append(x)
+            x = getattr(x, "__wrapped__", None)
+        below = [asyncio.iscoroutinefunction(x) for x in chain[1:]]
+        if asyncio.iscoroutinefunction(fn) and not any(below):
+            return leaf(fn)
     cells, hit = [], 0
     for c in fn.__closure__:
         if c.cell_contents is inner:
-            cells.append(types.CellType(rebuild(inner, leaf)))
+            cells.append(types.CellType(rebuild(inner, leaf, async_level)))
             hit += 1
         else:
             cells.append(c)
@@ -96,17 +164,22 @@ def rebuild(fn, leaf):
     return g
 
 
-def fault_factory(base, plan, log, kind="os"):
-    """subclass of `base` whose k-th backend call (k in plan, counted over the whole run, all sessions) raises
-    KINDS[kind] from INSIDE the operation; log gets (operation, raised) per call"""
-    exc = KINDS[kind]
+def fault_factory(base, plan, log, kind="os", ctl=None):
+    """subclass of `base` whose k-th backend call (k in plan, counted over the whole run, all sessions) fails from
+    INSIDE the operation: raises KINDS[kind], or (kind "slow") outlasts path_timeout, or (ctl.gate_*) parks until the
+    harness releases it and raises then; log gets (operation, raised) per call"""
+    ctl = ctl or Ctl(kind)
+
+    def make_exc(i, name):
+        k = ctl.kind if ctl.kind != "slow" else "os"
+        return KINDS[k](f"injected fault at backend call {i} ({name})")
 
     def tick(name):
         i = len(log)
         hit = i in plan
         log.append((name, hit))
         if hit:
-            raise exc(f"injected fault at backend call {i} ({name})")
+            raise make_exc(i, name)
         return i
 
     def leaf_for(name):
@@ -114,7 +187,18 @@ def fault_factory(base, plan, log, kind="os"):
             if asyncio.iscoroutinefunction(inner):
 
                 async def f(self, *a, **k):
-                    i = tick(name)
+                    i = len(log)
+                    gate = ctl.gate_idx.get(i) or ctl.gate_ops.pop(name, None)
+                    hit = i in plan or gate is not None
+                    log.append((name, hit))
+                    if gate is not None:
+                        ctl.parked.append(i)
+                        await gate.wait()
+                        raise make_exc(i, name)
+                    if hit and ctl.kind == "slow":
+                        await asyncio.sleep(PATH_TIMEOUT * 20)  # cancelled by the backend's own with_timeout
+                    if hit:
+                        raise make_exc(i, name)
                     try:
                         return await inner(self, *a, **k)
                     except (StopAsyncIteration, asyncio.CancelledError):
@@ -143,11 +227,11 @@ def fault_factory(base, plan, log, kind="os"):
         def list(self, path):
             lister = super().list(path)
             cls = type(lister)
-            cls.__anext__ = rebuild(cls.__anext__, leaf_for("list"))
+            cls.__anext__ = rebuild(cls.__anext__, leaf_for("list"), ctl.async_level)
             return lister
 
     for n in OPS:
-        setattr(Faulty, n, rebuild(getattr(base, n), leaf_for(n.lstrip("_"))))
+        setattr(Faulty, n, rebuild(getattr(base, n), leaf_for(n.lstrip("_")), ctl.async_level))
     return Faulty
 
 
@@ -156,6 +240,7 @@ class Sess(ftpsim.Session):
     def __init__(self, net, server):
         super().__init__(net, server)
         self.dc = None  # the data connection we made and the server has not consumed yet
+        self.patience = 0  # virtual seconds to wait for a reply that needs time to pass (path_timeout expiry)
 
     async def ev(self, verb, arg, payload):
         res = {"codes": [], "sent": None, "closed": None, "took": False, "ended": False, "pwd": None}
@@ -171,6 +256,9 @@ class Sess(ftpsim.Session):
             await self.net.settle()
             return res
         lines = await self.raw.send(verb if arg == "" else verb + " " + arg)
+        if self.patience:
+            await asyncio.sleep(self.patience)
+            lines += await self.raw.drain_replies()
         codes = simnet.final_codes(lines)
         v = verb.lower()
         if "150" in codes and self.dc is not None:
@@ -218,13 +306,15 @@ def run_impl(events, plan, backend="memory", kind="os"):
     try:
 
         async def main(net):
-            server = ftpsim.make_server(USERS, TREE, backend, tmp, wait_future_timeout=1, block_size=BLK)
+            kw = {"path_timeout": PATH_TIMEOUT} if kind == "slow" else {}
+            server = ftpsim.make_server(USERS, TREE, backend, tmp, wait_future_timeout=1, block_size=BLK, **kw)
             server.path_io_factory.factory = fault_factory(server.path_io_factory.factory, plan, log, kind)
             await server.start("127.0.0.1", ftpsim.PORT)
             sess = {}
             for who, verb, arg, payload in events:
                 if who not in sess:
                     sess[who] = Sess(net, server)
+                    sess[who].patience = 2 * PATH_TIMEOUT + 1 if kind == "slow" else 0
                     await sess[who].start()
                 n0 = len(log)
                 r = await sess[who].ev(verb, arg, payload)
@@ -241,6 +331,238 @@ def run_impl(events, plan, backend="memory", kind="os"):
     finally:
         if tmp:
             shutil.rmtree(tmp, ignore_errors=True)
+
+
+# ---------------------------------------------------------------- two tasks of one session finishing in the same wake-up
+ROUND_FIRST = {
+    "retr": ("RETR", "g", None), "stor": ("STOR", "new", b"abcdefghij"), "list": ("LIST", "d", None), "mlsd": ("MLSD", "", None),
+    "mkd": ("MKD", "x", None), "dele": ("DELE", "g", None),
+}
+# what else finishes at that moment: parse_command with the next line (known verb / unknown verb), or another command
+# whose backend call fails
+ROUND_SECOND = {
+    "pwd": ("line", "PWD", "257"), "unknown": ("line", "XYZZ", "502"),
+    "mkd": ("fail", "MKD y", "mkdir"), "dele": ("fail", "DELE d/f", "unlink"),
+}
+
+
+async def spin(n):
+    for _ in range(n):
+        await asyncio.sleep(0)
+
+
+def run_round_impl(first, j, second, d):
+    """The j-th backend call of command `first` parks inside the backend; then the `second` event is prepared (the next
+    command line written but held on the wire, or a pipelined command whose own backend call parks too); then both are
+    let go d event-loop iterations apart (d < 0: the second one first), so that for some d both tasks are done in the
+    same wake-up of the dispatcher.  -> observation dict"""
+    log, out = [], {"first": first, "j": j, "second": second, "d": d}
+
+    async def main(net):
+        server = ftpsim.make_server(USERS, TREE, "memory", None, wait_future_timeout=1, block_size=BLK)
+        ctl = Ctl("eio")
+        g1 = asyncio.Event()
+        ctl.gate_idx[j] = g1
+        server.path_io_factory.factory = fault_factory(server.path_io_factory.factory, set(), log, "eio", ctl)
+        await server.start("127.0.0.1", ftpsim.PORT)
+        rounds = []
+        orig_wait = asyncio.wait
+
+        async def spy(fs, **kw):
+            done, pending = await orig_wait(fs, **kw)
+            if kw.get("return_when") == asyncio.FIRST_COMPLETED:
+                rounds.append(len(done))
+            return done, pending
+
+        asyncio.wait = spy
+        try:
+            a, b = Sess(net, server), Sess(net, server)
+            for s_ in (a, b):
+                await s_.start()
+                await s_.ev("USER", "u", None)
+                await s_.ev("PASS", "pw", None)
+            await a.ev("PASV", "", None)
+            await a.ev(DC, "", None)
+            verb, arg, payload = ROUND_FIRST[first]
+            mark = len(rounds)
+            lines = await a.raw.send(verb if arg == "" else verb + " " + arg)
+            out["took"] = took = "150" in simnet.final_codes(lines) and a.dc is not None
+            if took and payload is not None:
+                a.dc[1].write(payload)
+                a.dc[1].write_eof()
+                lines += await a.raw.drain_replies()
+            kind2, line2, what2 = ROUND_SECOND[second]
+            g2 = asyncio.Event()
+            if ctl.parked != [j]:
+                out["skip"] = "first command does not reach that call"
+            elif kind2 == "fail":
+                ctl.gate_ops[what2] = g2
+                lines += await a.raw.send(line2)
+                if len(ctl.parked) != 2:
+                    out["skip"] = "second command did not reach its call"
+                let_second = g2.set
+            else:
+                link = a.raw.writer.transport.out
+                link.hold = True
+                a.raw.writer.write(line2.encode() + b"\r\n")
+                let_second = link.release
+            if "skip" in out:
+                g1.set()
+                g2.set()
+                await net.settle()
+            else:
+                mark = len(rounds)
+                if d >= 0:
+                    g1.set()
+                    await spin(d)
+                    let_second()
+                else:
+                    let_second()
+                    await spin(-d)
+                    g1.set()
+                lines += await a.raw.drain_replies()
+                await asyncio.sleep(30)
+                lines += await a.raw.drain_replies()
+                out["codes"] = simnet.final_codes(lines)
+                out["max_done"] = max(rounds[mark:] or [0])
+                if took:
+                    r, w = a.dc
+                    out["closed"] = bool(r._eof or r.exception() is not None)
+                    w.close()
+                    a.dc = None
+                out["ended"] = bool(a.raw.eof or a.raw.reader.at_eof())
+                out["later"] = (await a.ev("PWD", "", None))["codes"]
+                out["other"] = (await b.ev("PWD", "", None))["codes"]
+                out["calls"] = [(m, bool(h)) for m, h in log]
+            await server.close()
+        finally:
+            asyncio.wait = orig_wait
+
+    simnet.run(main)
+    return out
+
+
+def round_expect(o):
+    """what the property demands of such a run: (number of 451, other final codes as a sorted list)"""
+    kind2, line2, what2 = ROUND_SECOND[o["second"]]
+    n451 = 1 + (1 if kind2 == "fail" else 0)
+    others = (["150"] if o["took"] else []) + ([what2] if kind2 == "line" else [])
+    return n451, sorted(others)
+
+
+def round_oracle(ctx, o):
+    rep = {"stream": "same-round", "first": o["first"], "j": o["j"], "second": o["second"], "d": o["d"]}
+    n451, others = round_expect(o)
+    codes = o["codes"]
+    why = None
+    if o["ended"]:
+        why = "session-ended"
+    elif codes.count("451") < n451:
+        why = "failed-command-without-451"
+    elif codes.count("451") > n451:
+        why = "too-many-451"
+    elif any(c.startswith("2") and c not in others for c in codes):
+        why = "success-reply-despite-fault"
+    elif sorted(c for c in codes if c != "451") != others:
+        why = "concurrent-command-not-answered"
+    elif o["took"] and not o["closed"]:
+        why = "data-not-closed"
+    elif o["later"] != ["257"]:
+        why = "session-deaf-afterwards"
+    elif o["other"] != ["257"]:
+        why = "second-session-affected"
+    if why:
+        op = o["calls"][o["j"]][0] if o["j"] < len(o["calls"]) else "?"
+        ctx.violation(
+            f"property oracle (two tasks done in one wake-up): {why} ({' '.join(ROUND_FIRST[o['first']][:2])} failing at backend call "
+            f"{o['j']} ({op}) while {ROUND_SECOND[o['second']][1]!r} {'fails too' if ROUND_SECOND[o['second']][0] == 'fail' else 'arrives'}; "
+            f"replies {codes}, later PWD {o['later']})",
+            dict(rep, key=f"c13-round-{why}-{o['first']}-{op}-{o['second']}", codes=codes, later=o["later"], max_done=o["max_done"]),
+        )
+        return False
+    return True
+
+
+def round_model_case(o):
+    kind2 = ROUND_SECOND[o["second"]]
+    second = [0, 1] if kind2[0] == "fail" else [2, 1 if kind2[2] == "257" else 0]
+    return (2, [[0, 1], second])
+
+
+def round_compare(ctx, o, mo):
+    """the dispatcher-round model against the run, when both tasks were indeed done in one wake-up"""
+    if o["max_done"] < 2:
+        return True
+    codes, spawned, reparsed, alive = mo
+    m451 = sx.txts(codes).count("451")
+    kind2 = ROUND_SECOND[o["second"]]
+    got_second = (kind2[2] in o["codes"]) if kind2[0] == "line" else None
+    bad = None
+    if m451 != o["codes"].count("451"):
+        bad = ("number-of-451", m451, o["codes"].count("451"))
+    elif kind2[0] == "line" and bool(reparsed) != (o["later"] == ["257"]):
+        bad = ("parse_command-rearmed", bool(reparsed), o["later"])
+    elif kind2[0] == "line" and got_second != bool(spawned or "502" in sx.txts(codes)):
+        bad = ("line-dispatched", bool(spawned or "502" in sx.txts(codes)), got_second)
+    elif bool(alive) == o["ended"]:
+        bad = ("dispatcher-alive", bool(alive), not o["ended"])
+    if bad:
+        ctx.disagree("dispatcher-round", {"first": o["first"], "j": o["j"], "second": o["second"], "d": o["d"], "kind": bad[0]}, str(bad[1]), str(bad[2]))
+        return False
+    return True
+
+
+def round_stream(ctx):
+    thorough = ctx.tier == "thorough"
+    offsets = list(range(-4, 5)) if thorough else [-2, -1, 0, 1, 2]
+    cases = []
+    for first in ROUND_FIRST:
+        n = len(log_of_first(first))
+        for j in range(n):
+            for second in ROUND_SECOND:
+                for d in offsets:
+                    cases.append((first, j, second, d))
+    return cases
+
+
+_first_calls = {}
+
+
+def log_of_first(first):
+    """backend calls the first command makes when nothing fails"""
+    if first not in _first_calls:
+        events = login(A) + data(A) + [(A,) + ROUND_FIRST[first]]
+        obs, _, _ = run_impl(events, set(), "memory")
+        _first_calls[first] = obs[-1]["calls"]
+    return _first_calls[first]
+
+
+def check_rounds(ctx):
+    cases = round_stream(ctx)
+    aligned = 0
+    obs = []
+    for first, j, second, d in cases:
+        try:
+            o = run_round_impl(first, j, second, d)
+        except Exception as e:  # the implementation (or the driver on it) blew up: an observation, not the end of the run
+            ctx.disagree("dispatcher-round", {"first": first, "j": j, "second": second, "d": d, "kind": "exception"}, "a run", repr(e)[:300])
+            continue
+        ctx.traces_impl += 1
+        ctx.case(("round", first, j, second, d))
+        if "skip" in o:
+            ctx.count("round_skipped")
+            continue
+        ctx.count("round_" + ROUND_SECOND[second][0])
+        if o["max_done"] >= 2:
+            aligned += 1
+        obs.append(o)
+    outs = ctx.model([round_model_case(o) for o in obs])
+    for o, mo in zip(obs, outs):
+        round_compare(ctx, o, mo)
+        round_oracle(ctx, o)
+    ctx.count("round_runs_with_two_tasks_done_in_one_wakeup", aligned)
+    if obs and not aligned:
+        ctx.obligation_broken("same-round-alignment", "no run of the same-round stream had two tasks done in one wake-up: the stream is vacuous")
 
 
 # ---------------------------------------------------------------- corpus
@@ -366,7 +688,11 @@ def compare(ctx, name, events, plan, mo, obs, tree, backend, kind="os"):
             ctx.disagree("fault-session", dict(rep, at=i, event=[who, verb, arg], kind=bad[0]), str(bad[1]), str(bad[2]))
             return False
     mt = ftpsim.canon_tree(ftpsim.sx_to_tree(mo[2]))
-    if mt != tree:
+    if backend != "memory" and any(m == "close" and h for o in obs for m, h in o["calls"]):
+        # a real file whose close() failed stays open: what was written sits in its buffer until the object is collected;
+        # the content on disk is then not a function of the history (and not part of the property)
+        ctx.count("tree_not_compared_after_failed_close_on_disk")
+    elif mt != tree:
         ctx.disagree("fault-session-tree", dict(rep, kind="tree"), str(mt), str(tree))
         return False
     return True
@@ -444,7 +770,12 @@ def plans_for(rng, n, thorough):
 
 
 def check_case(ctx, name, events, plan, mo, backend, kind="os"):
-    obs, tree, log = run_impl(events, plan, backend, kind)
+    try:
+        obs, tree, log = run_impl(events, plan, backend, kind)
+    except Exception as e:  # the implementation (or the driver on it) blew up: an observation, the search goes on
+        ctx.disagree("fault-session", {"script": name, "plan": sorted(plan), "backend": backend, "raises": kind, "kind": "exception"},
+                     "a run", repr(e)[:300])
+        return False, []
     ctx.traces_impl += 1
     ok = compare(ctx, name, events, plan, mo, obs, tree, backend, kind)
     oracle(ctx, name, events, plan, obs, backend, kind)
@@ -460,11 +791,20 @@ def correspondence(ctx, budget=None):
         "and with the data connection made, followed by probes on the same session (PWD, fresh PASV + LIST) and on the second one "
         "(PWD, PASV + RETR); block size 4 so that transfers make several read/write calls. For each script the fault-free run counts "
         "the N backend calls of the whole run; then every single fault k < N and double faults (quick: (k,k+1) and (k,random); thorough: "
-        "all pairs) are run on the real server with the fault-injecting backend (the injected exception rotates over OSError / ValueError / RuntimeError; "
-        "thorough: every single fault with each class on the in-memory backend): MemoryPathIO for all, PathIO (tmpdir) and AsyncPathIO "
+        "all pairs) are run on the real server with the fault-injecting backend (the injected exception rotates over 27 classes: the OSError family as the "
+        "OS constructs it from errno - ETIMEDOUT = TimeoutError = asyncio.TimeoutError, ECONNRESET, EPIPE, EACCES, ENOENT, EEXIST, EISDIR, "
+        "ENOTDIR, EINTR, EAGAIN, ENOSPC, EIO - and ValueError, RuntimeError, KeyError, EOFError, AssertionError, UnicodeDecodeError, "
+        "MemoryError, RecursionError, IndexError, TypeError, AttributeError, IncompleteReadError; thorough: every single fault with each "
+        "class on the in-memory backend; on AsyncPathIO additionally every single position as an operation that outlasts path_timeout so "
+        "that the backend's own with_timeout expires): MemoryPathIO for all, PathIO (tmpdir) and AsyncPathIO "
         "for subsets. Compared with the model per command: reply codes, backend call sequence with raise marks, data connection "
         "taken / closed (client-side EOF after 30 virtual seconds), bytes / listing received, session probe, server-side open data "
-        "transports, final tree. Non-trivial = distinct (backend, script, fault plan)."
+        "transports, final tree. Non-trivial = distinct (backend, script, fault plan, class). SAME-ROUND stream: the j-th backend call "
+        "of RETR / STOR / LIST / MLSD / MKD / DELE (every j) parks inside the backend; then either the next command line (PWD, or an "
+        "unknown verb) is written but held on the wire, or a pipelined MKD / DELE parks in its own backend call; both are let go d loop "
+        "iterations apart (quick d in -2..2, thorough -4..4) so that both tasks are done in ONE wake-up of the dispatcher (counted by a spy "
+        "on asyncio.wait; the stream is vacuous-checked); oracle: every failed command has its own 451, the concurrent line is answered, "
+        "data EOF, the session and the other session answer PWD afterwards; compared with Model/FaultsRound.v (fn 2)."
     )
     params = ctx.model([(1, [])])[0]
     ctx.extra["model_parameters_from_source"] = {
@@ -486,10 +826,13 @@ def correspondence(ctx, budget=None):
             plans = plans[:1] + rng.sample(plans[1:], min(len(plans) - 1, budget))
         for p in plans:
             # the exception class rotates over the positions; thorough: every single fault with every class
-            kind = KIND_NAMES[(sum(p) + len(jobs)) % 3] if p else "os"
+            kind = KIND_NAMES[(sum(p) + len(jobs)) % len(KIND_NAMES)] if p else "os"
             jobs.append((backend, name, events, p, kind))
             if thorough and len(p) == 1 and backend == "memory":
                 jobs.extend((backend, name, events, p, k2) for k2 in KIND_NAMES if k2 != kind)
+            if len(p) == 1 and backend == "async":
+                # the operation outlasts path_timeout: the backend's own with_timeout expires (AsyncPathIO only has one)
+                jobs.append((backend, name, events, p, "slow"))
     model_out = ctx.model([model_case(ev, p) for _, _, ev, p, _ in jobs])
     xcheck = []
     sites = {}
@@ -498,7 +841,7 @@ def correspondence(ctx, budget=None):
         ctx.count("backend_" + backend)
         ctx.count("faults_%d" % len(plan))
         if plan:
-            ctx.count("raises_" + KINDS[kind].__name__)
+            ctx.count("raises_" + kind_class(kind))
         ok, obs = check_case(ctx, name, events, plan, mo, backend, kind)
         for o in obs:
             for m, h in o["calls"]:
@@ -510,6 +853,7 @@ def correspondence(ctx, budget=None):
             ctx.sample({"backend": backend, "script": name, "plan": sorted(plan),
                         "transcript": [[e[1], e[2], o["codes"]] for e, o in zip(events, obs) if e[1] != DC]})
     ctx.extra["raising_call_sites_exercised"] = sites
+    check_rounds(ctx)
     ok, out = core.vm_crosscheck(EXTRACT, [(fn, a, r) for fn, a, r in xcheck])
     ctx.extra["vm_compute_crosscheck"] = {"cases": len(xcheck), "agree": ok}
     if not ok:
@@ -528,6 +872,14 @@ def search(ctx):
 
 def replay(ctx, data):
     r = data.get("replay", {})
+    if r.get("stream") == "same-round":
+        before = len(ctx.violations) + len(ctx.disagreements)
+        o = run_round_impl(r["first"], r["j"], r["second"], r["d"])
+        print({k: o.get(k) for k in ("first", "j", "second", "d", "skip", "took", "codes", "closed", "ended", "later", "other", "max_done")})
+        if "skip" not in o:
+            round_compare(ctx, o, ctx.model([round_model_case(o)])[0])
+            round_oracle(ctx, o)
+        return len(ctx.violations) + len(ctx.disagreements) == before
     if "script" not in r:
         print(data)
         return False
